@@ -27,10 +27,10 @@ type vfC14Case struct {
 	env  *vfEnv
 	w    *vs.Bucket
 
-	conflicts bool
-	ccv       bool
-	revsLimit uint32
-	known13   bool
+	conflicts  bool
+	ccv        bool
+	revsLimit  uint32
+	known13    bool
 	knownPromo bool
 
 	contents [][]byte
@@ -165,13 +165,14 @@ func (c *vfC14Case) drawWrite(rt *rapid.T, label string) *vfC14Write {
 		// branch from an interior revision (a conflict when conflicts are allowed, a 409 otherwise)
 		interior := 0
 		for _, id := range d.order {
-			if d.hasChild(id) && interior < 4 {
-				interior++
-				wt := 1
-				if c.conflicts {
-					wt = 2
-				}
-				addT(vfC14Target{parent: id, pushOnly: c.conflicts}, wt)
+			if !d.hasChild(id) {
+				continue
+			}
+			interior++
+			if c.conflicts && interior <= 4 {
+				addT(vfC14Target{parent: id, pushOnly: true}, 2)
+			} else if !c.conflicts && interior == 1 {
+				addT(vfC14Target{parent: id}, 1)
 			}
 		}
 	}
@@ -347,11 +348,12 @@ func (c *vfC14Case) commit(p *vfC14Prepared, who string, rev string, doc *Docume
 	if aerr != nil {
 		c.harness("model cannot apply accepted write %s: %v", w.render(c.contents), aerr)
 	}
-	if info := doc.History[rev]; info == nil || info.Parent != r.parent {
-		// (the parent link may legitimately have been pruned away with revs_limit 1)
-		if info == nil || info.Parent != "" {
-			c.harness("write %s: stored parent of %s differs from the model's %q", w.render(c.contents), rev, r.parent)
-		}
+	// (a new tombstone on a short branch can be pruned away by the very write that adds it, and the
+	// parent link is cut when revs_limit prunes the parent)
+	if info := doc.History[rev]; info != nil && info.Parent != r.parent && info.Parent != "" {
+		c.harness("write %s: stored parent %q of %s differs from the model's %q", w.render(c.contents), info.Parent, rev, r.parent)
+	} else if info == nil && !w.deleted {
+		c.harness("write %s: accepted live revision %s is not in the stored revision tree", w.render(c.contents), rev)
 	}
 	c.writesOK++
 	for _, a := range r.atts {
@@ -455,10 +457,10 @@ func (c *vfC14Case) predictRevs(d *vfC14Doc, w *vfC14Write) ([]string, error) {
 //     revision's attachment map is stamped on the current revision; the new revision keeps none).
 //   - sPromo: the write makes ANOTHER existing leaf the current revision (the current branch is
 //     tombstoned) and that leaf carries attachments, with the obsolete-attachment sweep on.
-func (c *vfC14Case) shapes(d *vfC14Doc, w *vfC14Write) (s13, sPromo bool) {
+func (c *vfC14Case) shapes(d *vfC14Doc, w *vfC14Write) (s13, sPromo, promoCCV bool) {
 	revs, err := c.predictRevs(d, w)
 	if err != nil {
-		return false, false
+		return false, false, false
 	}
 	for _, rev := range revs {
 		sim := d.clone()
@@ -478,42 +480,43 @@ func (c *vfC14Case) shapes(d *vfC14Doc, w *vfC14Write) (s13, sPromo bool) {
 			if len(post.atts) > 0 {
 				s13 = true
 			}
-		} else if len(post.atts) > 0 && !c.ccv {
-			sPromo = true
+		} else if len(post.atts) > 0 {
+			if c.ccv {
+				promoCCV = true // same shape with the sweep switched off: holds, stays in the domain
+			} else {
+				sPromo = true
+			}
 		}
 	}
-	return s13, sPromo
+	return s13, sPromo, promoCCV
 }
 
 // shapesOfStep evaluates a (racing write, write) pair: a sound over-approximation - the write is
 // judged on the state with and without the racing write accepted.
-func (c *vfC14Case) shapesOfStep(main, hook *vfC14Write) (s13, sPromo bool) {
-	s13, sPromo = c.shapes(c.docs[main.doc], main)
+func (c *vfC14Case) shapesOfStep(main, hook *vfC14Write) (s13, sPromo, promoCCV bool) {
+	s13, sPromo, promoCCV = c.shapes(c.docs[main.doc], main)
 	if hook == nil {
 		return
 	}
-	a, b := c.shapes(c.docs[hook.doc], hook)
-	s13, sPromo = s13 || a, sPromo || b
+	a, b, x := c.shapes(c.docs[hook.doc], hook)
+	s13, sPromo, promoCCV = s13 || a, sPromo || b, promoCCV || x
 	if hook.doc == main.doc {
 		sim := c.docs[hook.doc].clone()
 		if rev, err := c.predictRev(sim, hook); err == nil {
 			if _, err := sim.apply(hook, rev); err == nil {
-				a, b = c.shapes(sim, main)
-				s13, sPromo = s13 || a, sPromo || b
+				a, b, x = c.shapes(sim, main)
+				s13, sPromo, promoCCV = s13 || a, sPromo || b, promoCCV || x
 			}
 		}
 	}
 	return
 }
 
-// stepWrite: mode 0 = plain write, 1 = the document write fails its first compare-and-swap (retry),
-// 2 = as 1 and another client's write (drawn independently on the same state) lands inside the window.
-func (c *vfC14Case) stepWrite(rt *rapid.T, mode int) {
-	c.rt = rt
-	main := c.drawWrite(rt, "w")
-	var hook *vfC14Write
+// drawStep draws the write of a step and, in mode 2, the racing write.
+func (c *vfC14Case) drawStep(rt *rapid.T, mode int, label string) (main, hook *vfC14Write) {
+	main = c.drawWrite(rt, "w"+label)
 	if mode == 2 {
-		hook = c.drawWrite(rt, "h")
+		hook = c.drawWrite(rt, "h"+label)
 		if hook.doc == main.doc && main.push && main.hasStub() {
 			// a stub is resolved against a parent the client read as a leaf; when the racing write can turn
 			// that parent into an interior revision the client re-sends the bytes instead (the db-level push
@@ -526,25 +529,48 @@ func (c *vfC14Case) stepWrite(rt *rapid.T, mode int) {
 			}
 		}
 	}
-	// listed findings are kept out by construction (and only while they are listed)
-	s13, sPromo := c.shapesOfStep(main, hook)
-	for _, x := range []struct {
-		hit   bool
-		known bool
-		sig   string
-	}{{s13, c.known13, vfC14Sig13}, {sPromo, c.knownPromo, vfC14SigPromo}} {
-		if x.hit && x.known {
-			c.ops = append(c.ops, "excluded("+x.sig+")")
-			c.class("excluded:" + x.sig)
-			c.excluded = append(c.excluded, x.sig)
-			return
+	return main, hook
+}
+
+// stepWrite: mode 0 = plain write, 1 = the document write fails its first compare-and-swap (retry),
+// 2 = as 1 and another client's write (drawn independently on the same state) lands inside the window.
+func (c *vfC14Case) stepWrite(rt *rapid.T, mode int) {
+	c.rt = rt
+	var main, hook *vfC14Write
+	for attempt := 0; ; attempt++ {
+		main, hook = c.drawStep(rt, mode, fmt.Sprintf("%d", attempt))
+		// listed findings are kept out by construction (and only while they are listed)
+		s13, sPromo, promoCCV := c.shapesOfStep(main, hook)
+		excluded := false
+		for _, x := range []struct {
+			hit   bool
+			known bool
+			sig   string
+		}{{s13, c.known13, vfC14Sig13}, {sPromo, c.knownPromo, vfC14SigPromo}} {
+			if x.hit && x.known {
+				c.class("excluded:" + x.sig)
+				c.excluded = append(c.excluded, x.sig)
+				excluded = true
+				break
+			}
 		}
-	}
-	if s13 {
-		c.class("shape:new-revision-loses-with-attachments-involved")
-	}
-	if sPromo {
-		c.class("shape:tombstone-promotes-leaf-with-attachments")
+		if excluded {
+			if attempt == 2 {
+				c.ops = append(c.ops, "excluded(3 draws had the shape of a listed finding)")
+				return
+			}
+			continue
+		}
+		if s13 {
+			c.class("shape:new-revision-loses-with-attachments-involved")
+		}
+		if sPromo {
+			c.class("shape:tombstone-promotes-leaf-with-attachments(sweep on)")
+		}
+		if promoCCV {
+			c.class("tombstone-promotes-leaf-with-attachments(sweep off)")
+		}
+		break
 	}
 	pm := c.prepare(main)
 	var ph *vfC14Prepared
